@@ -51,6 +51,7 @@ MANIFEST = {
         "head. Not decided: that each query's value equals an independent "
         "recomputation (partitions, current time) - value-level."
         " Also decided: no for-loop variable of these modules is read after its loop (statement left one indentation level too shallow)."
+        ' Also decided: current_time() is the earliest start over available_operations() (the filtered list).'
     ),
     "note": (
         "Alias model: flow-insensitive local definitions, attribute chains, "
@@ -81,6 +82,37 @@ def _origin_cached(o):
 CACHE = ["_cache"]  # the dispatcher's memo dict, found by role in run()
 
 
+def _clock_source(ctx, disp):
+    """R05.g - the current time is the earliest start over the *available*
+    operations, i.e. what the installed ready-operations filter lets through:
+    ongoing / completed / uncompleted are all defined against that clock, and
+    a filter may well hide the operation that could start first (the built-in
+    dominated-operations filter does, for zero-duration operations)."""
+    chk = ctx.chk
+    chk.rule("R05.g", "current_time() is the earliest start over available_operations() (the filtered list), not over the raw ready list")
+    ct = ctx.repo.method(disp, "current_time")
+    if ct is None:
+        raise AnalysisError("Dispatcher.current_time vanished")
+    f = ctx.norm.flat(ct, depth=3)
+    calls = [n for n in own_nodes(f.node) if isinstance(n, ast.Call) and isinstance(n.func, ast.Attribute) and n.func.attr == "min_start_time" and n.args]
+    if len(calls) != 1:
+        raise AnalysisError("Dispatcher.current_time: the min_start_time(...) call is not recognised")
+    src = ctx.norm.xexpr(f, calls[0].args[0])
+    t = ast.unparse(src)
+    if isinstance(src, ast.Call) and isinstance(src.func, ast.Attribute) and src.func.attr == "available_operations":
+        chk.ok("R05.g", ct.qualname, f.loc(calls[0]), "min_start_time(self.available_operations())")
+    elif "raw_ready_operations" in t or "ready_operations" in t and "available" not in t:
+        chk.violation(
+            "R05.g", ct, calls[0],
+            f"the clock is computed over `{t[:60]}`, the unfiltered ready list: when the installed filter hides the operation "
+            "that could start first, current_time() lags behind the time every other query is defined against, and "
+            "ongoing / completed / uncompleted operations no longer agree with a recomputation",
+            loc=f.loc(calls[0]),
+        )
+    else:
+        raise AnalysisError(f"Dispatcher.current_time: source of the clock `{t[:60]}` not recognised")
+
+
 def run(ctx):
     chk, repo = ctx.chk, ctx.repo
     from .common import check_loop_variable_leaks, modules_defining
@@ -98,6 +130,7 @@ def run(ctx):
     cached = cached_methods(ctx, disp)
     chk.floor("R05.c", len(cached), 8, "memoised methods")
     ctx.attempt(_no_reflection, ctx)
+    ctx.attempt(_clock_source, ctx, disp)
 
     # ---------------------------------------------------------------- R05.c
     for m in cached:
